@@ -222,4 +222,10 @@ class ChargingStation(VehicleState):
         :return: an exception due to failure or an optional updated simulation
         """
 
+        vehicle = sim.vehicles.get(self.vehicle_id)
+        mechatronics = env.mechatronics.get(vehicle.mechatronics_id) if vehicle else None
+        if vehicle and mechatronics and mechatronics.is_full(vehicle):
+            # nothing to add this step; the terminal condition releases the plug at the next update
+            # (a full vehicle arriving here through a default transition must not fail the whole update)
+            return None, sim
         return charge(sim, env, self.vehicle_id, self.station_id, self.charger_id)
